@@ -234,10 +234,23 @@ static void field_small(vf::Ctx& c, int n)  // n = 3 or 4: Matrix3_/Matrix4_ inv
 		asl::Matrix4_<Fp61> a(&A[0]), b(&B[0]), ab(&AB[0]);
 		c.op("det"); dA = a.det(); dB = b.det(); dAB = ab.det();
 		if (!ea.det.zero()) { c.op("inverse"); asl::Matrix4_<Fp61> x = a.inverse(); for (int i = 0; i < 4; i++) for (int j = 0; j < 4; j++) X[i * 4 + j] = x(i, j); }
+		// the products themselves: binary, in place, and in place with the operand being the same object
+		c.op("product");
+		FV AA = fmul(A, n, n, A, n);
+		asl::Matrix4_<Fp61> pr = a * b, q = a, sq = a;
+		q *= b;
+		sq *= sq;
+		bool okp = true, okq = true, oks = true;
+		for (int i = 0; i < 4; i++) for (int j = 0; j < 4; j++) { if (!(pr(i, j) == AB[i * 4 + j])) okp = false; if (!(q(i, j) == AB[i * 4 + j])) okq = false; if (!(sq(i, j) == AA[i * 4 + j])) oks = false; }
+		if (!okp) c.fail("m4.product", "A*B differs from the reference product");
+		if (!okq) c.fail("m4.product.in-place", "A *= B differs from the reference product");
+		if (!oks) c.fail("m4.product.in-place-self", "A *= A differs from the reference product A*A");
+		c.evals(3);
 	} else {
 		asl::Matrix3_<Fp61> a(&A[0]), b(&B[0]), ab(&AB[0]);
 		c.op("det"); dA = a.det(); dB = b.det(); dAB = ab.det();
 		if (!ea.det.zero()) { c.op("inverse"); asl::Matrix3_<Fp61> x = a.inverse(); for (int i = 0; i < 3; i++) for (int j = 0; j < 3; j++) X[i * 3 + j] = x(i, j); }
+		// Matrix3_::operator* is the product of 2D homogeneous transforms (last row 0 0 1 assumed), not a general 3x3 product: not judged here
 	}
 	std::string t = tag;
 	c.count(("f." + t + ".cases").c_str());
